@@ -38,7 +38,7 @@ CLAUSES = {
         "no_leak, no_leak_trace, unapply_restores, ctx_restored_after_run (leak_without_finish shows the reliance on C05)",
 }
 PARALLEL = True
-CASE_TIMEOUT = 30
+CASE_TIMEOUT = 90
 
 SOCKS = ["9.9.9.9", "127.0.0.1", "::1", "10.0.0.7"]
 TRUSTED_SETS = [[], ["5.5.5.5"], ["5.5.5.5", "10.0.0.1"], ["9.9.9.9"], ["", "5.5.5.5"], ["::1", "127.0.0.1"]]
@@ -103,7 +103,7 @@ def _req(rng, trusted):
 
 
 def gen_cases(rng, tier):
-    n = {"quick": 900, "thorough": 16000, "search": 900}[tier]
+    n = {"quick": 900, "thorough": 40000, "search": 900}[tier]
     for _ in range(n):
         trusted = rng.choice(TRUSTED_SETS)
         nreq = rng.choice([1, 2, 2, 3, 3, 4, 5])
